@@ -7,6 +7,7 @@ from .common import MSG, RANGE, REALTIME
 
 WIDE = 2 ** 40
 KINDS = smf.ALL_KINDS + REALTIME
+ILL_OVERRIDES = ['soon', None, 1.5, [1], float('inf')]      # non-integer override values (a menu)
 
 
 def _int_attrs(m):
@@ -94,7 +95,8 @@ def copy_overrides(cx, kind, n=1):
         if not cand:
             break
         a = cand[cx.choice('attr%d' % i, len(cand))]
-        over[a] = cx.int('v%d' % i, -WIDE, WIDE)
+        k = cx.choice('kind%d' % i, 1 + len(ILL_OVERRIDES))
+        over[a] = cx.int('v%d' % i, -WIDE, WIDE) if k == 0 else ILL_OVERRIDES[k - 1]
     snap = dict(vars(m))
     merged = dict(vars(m))
     merged.update(over)
@@ -178,11 +180,11 @@ BOUNDS = {
     'quick': 'each of 33 message kinds (all 18 Message types incl. sysex L=0/1/2, 11 known meta kinds, unknown meta with 0/2 data bytes) with every '
              'attribute symbolic in its documented range: copy/freeze/thaw class and equality, None->None, one symbolic '
              'assignment on the copy and on the original (attribute chosen symbolically), every set/del on the frozen twin; '
-             'copy(**overrides) with one integer attribute symbolic in [-2^40, 2^40], from the plain and from the frozen '
+             'copy(**overrides) with one attribute symbolic in [-2^40, 2^40] or from a 5-value ill-typed menu, from the plain and from the frozen '
              'message, against a fresh construction; hashing over the {min, mid, max} menu of every attribute, incl. equal messages built along different paths (decoded from bytes, text, a reordered dict)',
     'thorough': 'overrides of two attributes at once',
 }
-OUTSIDE = 'override values that are not integers (copy(data=<int>) was a defect, fixed, see known_findings.json); hashing beyond the ' \
+OUTSIDE = 'override values beyond integers and the ill-typed menu; hashing beyond the ' \
           'attribute menu (tuple hashing is C-level); smpte hours >= 32'
 ASSUMPTIONS = ['"a freshly constructed message with those values" = cls(type, **{attributes of the original updated with the overrides})']
 
